@@ -46,6 +46,8 @@ static const char *code_name(int code) {
   case JERR_BAD_DCT_COEF: return "BAD_DCT_COEF";
   case JERR_HUFF_MISSING_CODE: return "HUFF_MISSING_CODE";
   case JERR_NOT_COMPILED: return "NOT_COMPILED";
+  case JERR_BAD_HUFF_TABLE: return "BAD_HUFF_TABLE";
+  case JERR_HUFF_CLEN_OVERFLOW: return "HUFF_CLEN_OVERFLOW";
   case JERR_FRACT_SAMPLE_NOTIMPL: return "FRACT_SAMPLE_NOTIMPL";
   case JERR_CCIR601_NOTIMPL: return "CCIR601_NOTIMPL";
   default: { static char b[32]; snprintf(b, sizeof b, "E%d", code); return b; }
@@ -57,7 +59,7 @@ struct image {
   JCOEF *coef[MAXC];
 };
 
-struct cfg { int src_prev, opt, arith, ri, rows, prog, nscans; jpeg_scan_info scans[MAXSCANS]; };
+struct cfg { int src_prev, opt, arith, ri, rows, prog, nosu, nobi, nscans; jpeg_scan_info scans[MAXSCANS]; };
 
 static unsigned char initbuf[1 << 16];   /* caller-owned first output buffer */
 
@@ -97,6 +99,8 @@ static void parse_cfg(char *txt, struct cfg *c) {
     else if (!strncmp(t, "ri=", 3)) c->ri = atoi(t + 3);
     else if (!strncmp(t, "rows=", 5)) c->rows = atoi(t + 5);
     else if (!strncmp(t, "prog=", 5)) c->prog = atoi(t + 5);
+    else if (!strcmp(t, "nosu")) c->nosu = 1;
+    else if (!strcmp(t, "nobi")) c->nobi = 1;
     else if (!strncmp(t, "scans=", 6)) c->nscans = parse_scans(t + 6, c->scans, MAXSCANS);
   }
 }
@@ -189,15 +193,52 @@ static int transcode(unsigned char *src, unsigned long srcsize, struct cfg *cf, 
 }
 
 /* read back coefficients, compare with the image; returns 1 equal, 0 different (msg filled), -1 error */
-static int readback(unsigned char *jpg, unsigned long size, struct image *im, char *msg, size_t msgsz, long *warn) {
+/* a suspending data source over a memory buffer: fill_input_buffer() always returns FALSE; the
+ * application then makes `chunk` more bytes visible (the library backtracks to the start of the
+ * current MCU / marker, the window only ever grows at its end) */
+struct susp_src { struct jpeg_source_mgr pub; const unsigned char *data; size_t size, chunk; long skip; long nsusp; };
+static void s_init(j_decompress_ptr c) { (void)c; }
+static boolean s_fill(j_decompress_ptr c) { ((struct susp_src *)c->src)->nsusp++; return FALSE; }
+static void s_term(j_decompress_ptr c) { (void)c; }
+static void s_skip(j_decompress_ptr c, long n) {
+  struct susp_src *s = (struct susp_src *)c->src;
+  if (n <= 0) return;
+  if ((size_t)n <= s->pub.bytes_in_buffer) { s->pub.next_input_byte += n; s->pub.bytes_in_buffer -= n; }
+  else { s->skip += n - (long)s->pub.bytes_in_buffer; s->pub.next_input_byte += s->pub.bytes_in_buffer; s->pub.bytes_in_buffer = 0; }
+}
+static int s_feed(struct susp_src *s) {
+  size_t pos = (size_t)(s->pub.next_input_byte - s->data) + s->pub.bytes_in_buffer, add;
+  if (pos >= s->size) return 0;
+  add = s->size - pos < s->chunk ? s->size - pos : s->chunk;
+  s->pub.bytes_in_buffer += add;
+  while (s->skip > 0 && s->pub.bytes_in_buffer > 0) { s->pub.next_input_byte++; s->pub.bytes_in_buffer--; s->skip--; }
+  return 1;
+}
+
+/* chunk == 0: one memory buffer; chunk > 0: suspending source refilled `chunk` bytes at a time */
+static int readback(unsigned char *jpg, unsigned long size, struct image *im, char *msg, size_t msgsz, long *warn, size_t chunk) {
   struct jpeg_decompress_struct di; struct my_err err; jvirt_barray_ptr *arr; int c, res = 1;
+  struct susp_src ss;
   memset(&di, 0, sizeof di);
   di.err = jpeg_std_error(&err.pub); err.pub.error_exit = my_exit; err.pub.emit_message = my_emit;
   if (setjmp(err.jb)) { snprintf(msg, msgsz, "decode-error:%s", code_name(err.code)); jpeg_destroy_decompress(&di); return -1; }
   jpeg_create_decompress(&di);
-  jpeg_mem_src(&di, jpg, size);
-  jpeg_read_header(&di, TRUE);
-  arr = jpeg_read_coefficients(&di);
+  if (chunk == 0) {
+    jpeg_mem_src(&di, jpg, size);
+    jpeg_read_header(&di, TRUE);
+    arr = jpeg_read_coefficients(&di);
+  } else {
+    memset(&ss, 0, sizeof ss);
+    ss.pub.init_source = s_init; ss.pub.fill_input_buffer = s_fill; ss.pub.skip_input_data = s_skip;
+    ss.pub.resync_to_restart = jpeg_resync_to_restart; ss.pub.term_source = s_term;
+    ss.data = jpg; ss.size = size; ss.chunk = chunk; ss.pub.next_input_byte = jpg; ss.pub.bytes_in_buffer = 0;
+    di.src = &ss.pub;
+    while (jpeg_read_header(&di, TRUE) == JPEG_SUSPENDED)
+      if (!s_feed(&ss)) { snprintf(msg, msgsz, "starved-in-header"); jpeg_destroy_decompress(&di); return 0; }
+    if (di.arith_code) { jpeg_destroy_decompress(&di); return 2; }     /* jdarith.c cannot suspend */
+    while ((arr = jpeg_read_coefficients(&di)) == NULL)
+      if (!s_feed(&ss)) { snprintf(msg, msgsz, "starved-in-data"); jpeg_destroy_decompress(&di); return 0; }
+  }
   if (di.num_components != im->NC || di.data_precision != im->P) { snprintf(msg, msgsz, "header-mismatch"); res = 0; }
   for (c = 0; res == 1 && c < im->NC; c++) {
     JDIMENSION r;
@@ -215,10 +256,53 @@ static int readback(unsigned char *jpg, unsigned long size, struct image *im, ch
     }
   }
   *warn = di.err->num_warnings;
-  jpeg_finish_decompress(&di);
+  if (chunk == 0) jpeg_finish_decompress(&di);
+  else while (!jpeg_finish_decompress(&di)) if (!s_feed(&ss)) break;
   *warn = di.err->num_warnings;
   jpeg_destroy_decompress(&di);
   return res;
+}
+
+/* buffered-image mode: one output pass per scan as the scans arrive, then the final pass; returns the
+ * hash of the FINAL pass (must equal the plain decode) */
+static int pixels_buffered(unsigned char *jpg, unsigned long size, int P, uint64_t *hash, int *code, int *passes) {
+  struct jpeg_decompress_struct di; struct my_err err; uint64_t h = 0;
+  void *volatile row = NULL;
+  memset(&di, 0, sizeof di);
+  di.err = jpeg_std_error(&err.pub); err.pub.error_exit = my_exit; err.pub.emit_message = my_emit;
+  if (setjmp(err.jb)) { *code = err.code; jpeg_destroy_decompress(&di); free(row); return 1; }
+  jpeg_create_decompress(&di);
+  jpeg_mem_src(&di, jpg, size);
+  jpeg_read_header(&di, TRUE);
+  di.buffered_image = TRUE;
+  jpeg_start_decompress(&di);
+  row = malloc((size_t)di.output_width * di.output_components * 2 + 16);
+  *passes = 0;
+  for (;;) {
+    int final = jpeg_input_complete(&di);
+    size_t n = (size_t)di.output_width * di.output_components, i;
+    jpeg_start_output(&di, di.input_scan_number);
+    h = 1469598103934665603ULL;
+    while (di.output_scanline < di.output_height) {
+      if (P == 12) {
+        J12SAMPROW r12 = (J12SAMPROW)row;
+        jpeg12_read_scanlines(&di, &r12, 1);
+        for (i = 0; i < n; i++) { h ^= (uint64_t)(uint16_t)r12[i]; h *= 1099511628211ULL; }
+      } else {
+        JSAMPROW r8 = (JSAMPROW)row;
+        jpeg_read_scanlines(&di, &r8, 1);
+        for (i = 0; i < n; i++) { h ^= r8[i]; h *= 1099511628211ULL; }
+      }
+    }
+    jpeg_finish_output(&di);
+    (*passes)++;
+    if (final) break;
+  }
+  jpeg_finish_decompress(&di);
+  jpeg_destroy_decompress(&di);
+  free(row);
+  *hash = h;
+  return 0;
 }
 
 static int pixels(unsigned char *jpg, unsigned long size, int P, uint64_t *hash, int *code) {
@@ -324,10 +408,26 @@ static void do_img(char *line) {
       char msg[128]; long warn = 0; uint64_t h = 0; unsigned long j; int rb;
       fputs("ok ", stdout);
       for (j = 0; j < outsize; j++) printf("%02x", out[j]);
-      rb = readback(out, outsize, &im, msg, sizeof msg, &warn);
+      rb = readback(out, outsize, &im, msg, sizeof msg, &warn, 0);
       if (rb == 1) printf(" rb=1"); else printf(" rb=0@%s", msg);
       printf(" w=%ld", warn);
       { int pc = 0; if (pixels(out, outsize, im.P, &h, &pc)) printf(" px=error:%s", code_name(pc)); else printf(" px=%016llx", (unsigned long long)h); }
+      if (cf->nosu) printf(" su=skip");
+      else {
+        /* the same file through a suspending source, 1..9 bytes per refill (every split point for chunk 1) */
+        static const size_t chunks_small[] = { 1, 2, 3, 4, 5, 6, 7, 8, 9 }, chunks_big[] = { 3, 7 };
+        const size_t *ch = outsize <= 6000 ? chunks_small : chunks_big; int nch = outsize <= 6000 ? 9 : 2, q, bad = 0, na = 0;
+        for (q = 0; q < nch && !bad && !na; q++) {
+          char m2[128]; long w2 = 0; int r2 = readback(out, outsize, &im, m2, sizeof m2, &w2, ch[q]);
+          if (r2 == 2) na = 1;
+          else if (r2 != 1 || w2 != 0) { printf(" su=0@chunk%d:%s:w%ld", (int)ch[q], r2 == 1 ? "warn" : m2, w2); bad = 1; }
+        }
+        if (na) printf(" su=na"); else if (!bad) printf(" su=1");
+      }
+      if (cf->nobi) printf(" bi=skip");
+      else { int pc = 0, np = 0; uint64_t hb = 0;
+        if (pixels_buffered(out, outsize, im.P, &hb, &pc, &np)) printf(" bi=error:%s", code_name(pc));
+        else printf(" bi=%016llx/%d", (unsigned long long)hb, np); }
       free(prev); prev = malloc(outsize ? outsize : 1); memcpy(prev, out, outsize); prevsize = outsize;
       if (out != initbuf) free(out);
     }
